@@ -25,7 +25,7 @@ import vlib
 def run(ctx):
     ctx.level = "exploration"
     cfg = "Capture_quick.cfg" if ctx.quick else "Capture_thorough.cfg"
-    r = ctx.tlc("MCCapture", cfg, workers=4 if ctx.quick else 8, timeout=3000, xmx="8g")
+    r = ctx.tlc("MCCapture", cfg, workers=4 if ctx.quick else 6, timeout=3000, xmx="8g")
     if r.violated:
         ctx.spec_violation(r, "Capture.tla: %s violated" % r.violated)
         return
@@ -58,8 +58,9 @@ def run(ctx):
     ctx.cov["distinct_nontrivial"] = n if rc is None else 1
     ctx.cov["spec_call_sites"] = len(sites)
     ctx.cov["rule"] = (
-        "every call site (capture mode incl. attribute argument x type class x macro wrap) x every "
-        "transformation path of length <= MaxSteps x every read path of the final representation, enumerated "
+        "every call site (capture mode incl. attribute argument and the macro-less conversion API x type class x macro wrap) x every "
+        "transformation path of length <= MaxSteps x every read path of the final representation (incl. the typed ones "
+        "as_f64 / to_borrowed_str / cast::<&str> / cast::<String> / cast::<&dyn Error> where the site promises the typed component), enumerated "
         "by TLC; each case executed once per Rust type of the class (one real macro call site per mode x type x "
         "wrap): on EVERY pool extreme of the type for paths of length <= ExhaustUpTo, on a seeded draw otherwise; "
         "evaluations = capture+path+read executions; distinct_nontrivial = distinct (site, path, reader) cases")
@@ -76,8 +77,25 @@ def run(ctx):
         "representation and read path); formatting of primitives and strings captured with `inspect: true`; "
         "whether as_debug of a &str shows its Debug or its own text (a String shows Debug); downcast fast paths",
         "value-bag / sval / serde bridges are exercised, not modelled",
+        "Display / Debug components are compared under the plain formatter and under 8 formatter flag families ({:#} {:>10} "
+        "{:*>6} {:.2} {:>8.2} {:+} {:06} and, Debug only, {:x?} / {:#06x?}) against the original Rust value formatted with the "
+        "same format string, through Display and through Debug, plus three flagged template holes (#[emit::fmt(\"#?\")], "
+        "\">8.2?\", \">8.2\") on the render path; text_stable compares the same flagged texts with those of the captured Value",
+        "typed read paths: as_f64 of a number = its `as f64` conversion (of anything else: not decided); cast::<String> of a "
+        "string = an owned copy; to_borrowed_str / cast::<&str> = the string itself while the value has only been passed by "
+        "reference / type-erased, afterwards None is accepted (never a different string); hand-built properties "
+        "(mode from_value: Value::from / to_value, no macro) promise what as_value promises, arrays their sequence",
         "bounded: %s" % vlib.cfg_header(os.path.join(vlib.SPEC, cfg)),
     ]
+    witnessed = set()
     for m in rep["mismatches"]:
+        witnessed.add(m["detail"]["sig"].split(" ty=")[0])
         ctx.violation("C19 %s: %s" % (m["what"], json.dumps(m["detail"])[:500]), m,
                       signature="C19:" + m["detail"]["sig"])
+    # a category whose witnesses did not fit into the report is still a violation of its own
+    # (a known finding must never hide a different one)
+    for cat, n in sorted(ex.get("mismatch_categories", {}).items()):
+        if cat not in witnessed:
+            ctx.violation("C19 %s (%d executions; no witness kept in the report)" % (cat, n),
+                          {"kind": "category-without-witness", "category": cat, "count": n},
+                          signature="C19:" + cat + " ")
